@@ -105,6 +105,21 @@ def gen_pts(rng, dim):
     return pts, w, cls
 
 
+# translator tie: geom3/plane3.rs is regenerated on every run and each function is proved (by conversion) to be the model's
+# function on the same plane; the generated record Plane3 and the model's record `plane` differ only in their names
+_PL = "(@mkPlane _ (Plane3_normal s) (Plane3_d s))"
+SPECS = [dict(rust="src/geom3/plane3.rs", gen="Plane3", model="Model.Frames", fns=[], aux=["Plane3_new"], fields=["Plane3"], stmts={
+    "Plane3_signed_distance_to_point": "forall (N : EG.Num.Num.Num) (s : @Plane3 N) q, @{G}.Plane3_signed_distance_to_point N s q = @{M}.plane_signed N %s q" % _PL,
+    "Plane3_distance_to_point": "forall (N : EG.Num.Num.Num) (s : @Plane3 N) q, @{G}.Plane3_distance_to_point N s q = @{M}.plane_dist N %s q" % _PL,
+    "Plane3_project_point": "forall (N : EG.Num.Num.Num) (s : @Plane3 N) q, @{G}.Plane3_project_point N s q = @{M}.plane_project N %s q" % _PL,
+    "Plane3_inverted_normal": "forall (N : EG.Num.Num.Num) (s : @Plane3 N), (let r := @{G}.Plane3_inverted_normal N s in @mkPlane N (Plane3_normal r) (Plane3_d r)) = @{M}.plane_inverted N %s" % _PL,
+})]
+
+
+def translate():
+    return C.translator_tie(SPECS)
+
+
 def gen_svd(rng, dim):
     pts, w, cls = gen_pts(rng, dim)
     q = [rng.uniform(-2, 2) + p for p in pts[0]]
